@@ -4,7 +4,7 @@ import math
 import numpy as np
 import pandas as pd
 
-from .. import common as C, gen, scen
+from .. import translators, common as C, gen, scen
 from ..common import tok_f, tok_list
 from ..runner import Check
 from . import drvcommon as D
@@ -179,7 +179,7 @@ def run_case(spec):
 
 
 def run():
-    chk = Check("C17", props_modules=["GFO.Props.C17", "GFO.Props.SmboRuns", "GFO.Props.DirectSelect"])
+    chk = Check("C17", props_modules=["GFO.Props.C17", "GFO.Props.SmboRuns", "GFO.Props.DirectSelect", "GFO.Gen.SmboGenCheck", "GFO.Gen.TrackerGenCheck"], gen_steps=(translators.gen_smbo, translators.gen_tracker))
     chk.build_and_audit()
     r = C.rng("C17")
     quick = C.tier() != "thorough"
